@@ -17,6 +17,11 @@ CHECKS = {
          "On every input of the C01 text-level spaces (and the scaling families) both entry points' trees are walked completely: root kind and range, leaves spelling the input byte for byte, every node's children tiling its range without gap or overlap, empty nodes having empty ranges.",
          "Inputs on which parsing does not return are C01's and are skipped (counted). rowan's range arithmetic is trusted.",
          "DESIGN.md section 7, C02"),
+ "C11": ("exploration",
+         "bounded exhaustive splicing of malformed lexemes at every position of every short token sequence; gating relations checked on every token sequence through the full pipeline",
+         "35 malformed spellings in 8 classes (unterminated strings, bit strings and comments, base prefixes without digits, exponents without digits, malformed version headers, identifiers with forbidden characters) are spliced at every gap of every sequence of <= 2 tokens over the full token alphabet; the lexical diagnostic must sit on the spliced lexeme. Every sequence of <= 3 tokens (with malformed variants) goes through parse_check_lex (tree iff no lexical diagnostic; diagnostics all lexical or all syntactic) and through parse_source_string (any_syntax_errors iff a syntax diagnostic; then empty program and no semantic diagnostics; otherwise analysis ran).",
+         "Pipeline cases on which the analyser panics are skipped here and counted (they are C03's). Includes of real files with faults are exercised by C18.",
+         "DESIGN.md section 7, C11"),
  "C12": ("exploration",
          "bounded exhaustive enumeration of inputs; span validity and error-node/diagnostic correspondence on every one",
          "On every input of the C01 text-level spaces (with non-ASCII lexemes) every diagnostic of both entry points must have start <= end <= len on character boundaries, and a tree containing an ERROR node or token must come with at least one diagnostic.",
@@ -27,6 +32,11 @@ CHECKS = {
          "Every string of at most 5 (thorough: 6-7) symbols over five 14-symbol alphabets of lexically critical atoms is lexed by the real lexer and by LexedStr; on each the partition invariants (non-zero lengths, character boundaries, suffix offsets, lengths summing to the input, strictly increasing offsets, slicing never fails, two runs equal) are checked. Exhaustive within the bound, so every lexer shortcut reachable with <= 7 critical atoms is hit by construction rather than by luck.",
          "Nothing is claimed for strings beyond the bound or characters outside the alphabets. Trusted: rustc, the harness.",
          "DESIGN.md section 7, C14"),
+ "C15": ("exploration",
+         "exhaustive enumeration of all ordered pairs (thorough: triples) of lexeme instances times separator flavours against a hand-written expected-kind table",
+         "About 190 lexeme instances (every keyword and type name, punctuation, integer/float spellings, number+unit, identifiers incl. Unicode and keyword-prefixed, hardware qubits, bit strings, strings, comments, pragma/annotation lines, version header) in all ordered pairs x 7 separators and alone with leading/trailing trivia (thorough: all triples); the non-trivia token table must be exactly the expected (kind, text) list with no lexical error, hence identical across separators.",
+         "Expected kinds are a hand-written table (keywords by naming convention). must_separate is conservative. Bare OPENQASM / pragma are excluded (header / line forms only).",
+         "DESIGN.md section 7, C15"),
  "C19": ("model_checking",
          "explicit-state exploration of all operation histories on the real SymbolTable, lock-step comparison with a reference stack of maps",
          "All histories of length <= 6 (thorough: <= 8, 4.8e7) over the nine operations of the statement, plus a second alphabet (lookup-or-bind, gate and hardware-qubit bindings) and all short histories from 11 systematic non-initial states, are executed on the real SymbolTable (cloned at branch points); after every operation the result and the full observation vector (look-ups, scope size, depth, every id ever issued, gate and hardware-qubit listings) are compared with the reference model. Reports reference states, transitions and traces executed; every trace runs on the implementation.",
